@@ -115,7 +115,7 @@ def request(case, i, mode):
     if "scale" in case:
         return {"id": i, "scale": case["scale"], "poison": pv}
     return {"id": i, "Y": case["Y"], "X": case["X"], "r": case["r"], "c": case["c"], "poison": pv,
-            "Y2": case.get("Y2")}
+            "Y2": case.get("Y2"), "entry": case.get("entry")}
 
 
 def run_mode(mode, cases, out, max_respawn):
